@@ -170,6 +170,9 @@ func (env *specEnv) lookup(name string) (Val, types.Type, bool) {
 	vc := env.vc
 	if env.fr != nil {
 		fr := env.fr
+		if b, ok := fr.ghosts[name]; ok {
+			return b.V, b.T, true
+		}
 		// hidden range indices
 		if name == "idx" && len(fr.curLoop) > 0 {
 			if t, ok := fr.idxVars[fr.curLoop[len(fr.curLoop)-1]]; ok {
@@ -535,7 +538,8 @@ func (env *specEnv) evalQuant(x SQuant) Term {
 			env.fail("unknown binder type %s", b.Type)
 			t = tInt
 		}
-		v := Term{b.Name + "?", env.vc.sortOf(t)}
+		env.vc.nbound++
+		v := Term{fmt.Sprintf("%s?%d", b.Name, env.vc.nbound), env.vc.sortOf(t)}
 		vars = append(vars, v)
 		n = n.with(b.Name, binding{v, t})
 	}
@@ -948,6 +952,7 @@ func (env *specEnv) callGhost(g *GhostFunc, x SCall) (Val, types.Type) {
 		vc.usedGhost[g.Name] = true
 		top, mid, bot := "g!"+g.Name, "g!"+g.Name+"!1", "g!"+g.Name+"!0"
 		vc.declFun(top, sorts, rs)
+		defer vc.emitAxiomsFor(g.Name, genv.pkg)
 		if g.Body != nil {
 			vc.declFun(mid, sorts, rs)
 			vc.declFun(bot, sorts, rs)
@@ -962,7 +967,7 @@ func (env *specEnv) callGhost(g *GhostFunc, x SCall) (Val, types.Type) {
 				}
 				body, _ := aenv.evalTerm(g.Body)
 				app := App(rs, lv[0], bvs...)
-				vc.assumeGlobal(Forall(bvs, [][]Term{{app}}, And(Eq(app, body), Eq(app, App(rs, lv[1], bvs...)))))
+				vc.assumeAxiom(Forall(bvs, [][]Term{{app}}, And(Eq(app, body), Eq(app, App(rs, lv[1], bvs...)))), lv[0])
 			}
 		}
 	}
@@ -1034,7 +1039,7 @@ func (vc *VC) sqrtTerm(st *State, a Term) Term {
 		vc.declSet["sqrt!ax"] = true
 		x := Term{"x?", SReal}
 		sx := App(SReal, "sqrt", x)
-		vc.assumeGlobal(Forall([]Term{x}, [][]Term{{sx}}, Implies(Ge(x, Term{"0.0", SReal}), And(Ge(sx, Term{"0.0", SReal}), Eq(Mul(sx, sx), x)))))
+		vc.assumeAxiom(Forall([]Term{x}, [][]Term{{sx}}, Implies(Ge(x, Term{"0.0", SReal}), And(Ge(sx, Term{"0.0", SReal}), Eq(Mul(sx, sx), x)))), "direct:sqrt")
 	}
 	return App(SReal, "sqrt", a)
 }
@@ -1138,3 +1143,19 @@ func (vc *VC) structLocs(t types.Type, ref Term) []modLoc {
 }
 
 var _ = fmt.Sprintf
+
+// emitAxiomsFor adds the trusted axioms that mention ghost function name (once per VC).
+func (vc *VC) emitAxiomsFor(name string, pkg *types.Package) {
+	for _, ax := range vc.P.Specs.Axioms {
+		if vc.usedGhost["axiom:"+ax.Name] {
+			continue
+		}
+		if !containsWord(ax.Cl.Text, name+"(") {
+			continue
+		}
+		vc.usedGhost["axiom:"+ax.Name] = true
+		vc.Trusted["axiom:"+ax.Name+" ("+ax.Cl.Text+")"] = true
+		env := &specEnv{vc: vc, st: &State{pc: True, vars: map[*types.Var]Val{}, heaps: map[string]Term{}, alloc: Term{"alloc0", SInt}}, pkg: vc.pkgByPath(ax.Pkg), names: map[string]binding{}}
+		vc.assumeAxiom(env.evalBool(ax.Cl.Expr), "g!"+name)
+	}
+}
